@@ -6,7 +6,7 @@ import json, os, subprocess, sys, time
 V = os.path.dirname(os.path.dirname(os.path.abspath(__file__)))
 wt = sys.argv[1]
 ids = sys.argv[2:] or sorted(os.listdir(os.path.join(V, "seeded")))
-EXTRA = {"C02": ["C07", "C01"], "C07": ["C01"], "C08": ["C01", "C04"], "C13": ["C07"], "C04": ["C09"], "C14": ["C01"], "C01": ["C12", "C06", "C07"],
+EXTRA = {"C02": ["C08", "C07", "C01"], "C07": ["C02", "C01"], "C08": ["C02", "C01", "C04"], "C13": ["C07"], "C04": ["C09"], "C14": ["C01"], "C01": ["C12", "C06", "C07"],
          "C03": ["C01"], "C10": ["C11"], "C11": ["C10"], "C09": ["C04"], "C15": ["C16"], "C16": ["C09"]}
 env = dict(os.environ, NEVER_REPO=wt)
 out = {}
